@@ -9,6 +9,10 @@ CLAIMED = {
    text="Coq theorem C06_matches_spec: for every well-formed filter and event of any size that fits the length fields, the model of Filter::event_matches run on the binary encodings returns exactly the NIP-01 specification's answer (never error/panic/out-of-fuel). Model and encoders are tied to /repo on every run: same parts -> OwnedFilter::new/OwnedEvent::new bytes vs enc_filter/enc_event, event_matches vs model vs spec.",
    note="Trusted: Coq kernel; hand-written model (Access.v, Layout.v) of filter.rs/tags.rs/event.rs accessors; extraction (ExtrOcamlBasic); harness; transfer to the code only as strong as the sampled agreement. Nameless constraints excluded (boundary Example).",
    technique="Coq proof model = spec (induction over tag lists) + differential correspondence model/impl + spec oracle"),
+ "C19": dict(engine="codec-diff", design="DESIGN.md 5 C19",
+   text="Coq theorems (9) on the from_parts constructors of Tags/Event/Filter: parts that fit the length fields and a large-enough buffer give Ok, the encoding sits at the front of the buffer, the rest of the buffer is untouched, and every accessor/iterator model run on the encoding returns exactly the parts (all sizes, unbounded N); parts that do not fit are refused (ERange), a too-small buffer gives EBuf - never Panic. Tied to /repo by a differential run: guarded caller buffers with three prior fills, every output length around the required size, both sides of every u16 boundary (70,000-byte strings, 16383 tags, 65536 kinds/ids), plus an oracle written independently in python.",
+   note="Trusted: Coq kernel; models Ctor.v/Layout.v/Access.v; extraction; harness. The u32 (4 GiB) boundary is covered by the theorems only. JSON constructors: see C01/C03/C07; sign_new: C08. PARTIAL until those are claimed.",
+   technique="Coq proof (accessors on encodings = parts; refusal of oversize/small buffer) + differential correspondence + independent python oracle"),
  "C20": dict(engine="codec-diff", design="DESIGN.md 5 C20",
    text="Coq theorems (12) on the Hll8 model: merge commutative/associative/idempotent, add idempotent and order-independent for whole insertion sequences (Permutation), sketch(A++B)=merge, offset range, u8 rho bound, hex export/import identity, import total on arbitrary bytes. PARTIAL: the floating-point estimator (never panics, empty=0, 40% envelope) is outside the model and is checked on the implementation only (both build profiles, every single-register extreme, seeded statistical trials).",
    note="Trusted: Coq kernel; model Hll.v/Hex.v of hll8.rs/macros.rs; extraction; harness. Not modelled: f64 arithmetic, libm ln/log2/round; envelope is a statistical test.",
